@@ -421,6 +421,12 @@ def eval_misc(case):
         ok = name_ok(k, s)
         entries = {'set_name': lambda: _sl(cls, 'set_name', s), 'set_properties': lambda: _sl(cls, 'props', s),
                    'set_property': lambda: _sl(cls, 'prop', s)}
+        # decoding from text: the dictionary / JSON form of a sliver of this kind with the name replaced
+        entries['from_dict'] = lambda: _decode_name(k, s, 'dict')
+        if k in ('node', 'service'):
+            entries['from_json'] = lambda: _decode_name(k, s, 'json')
+        if k == 'component':
+            entries['from_json-nested'] = lambda: _decode_name(k, s, 'nested')
         if k in ('node', 'component', 'service', 'interface'):
             entries['create'] = lambda: _create(k, s)
             if k == 'component':
@@ -575,6 +581,44 @@ def _sliver_tags_edited(s):
     x = NodeSliver()
     x.set_tags(tg)
     return x.get_tags().tags
+
+
+def _decode_name(kind, s, how):
+    """a valid sliver of this kind goes to its dictionary / JSON form, the name in that form is replaced, the form is decoded"""
+    import copy
+    from fim.graph.abc_property_graph import ABCPropertyGraph as G
+    from fim.slivers.json import JSONSliver
+    from fim.slivers.attached_components import AttachedComponentsInfo, ComponentType
+    from fim.slivers.network_node import NodeType
+    from fim.slivers.network_service import ServiceType
+    from fim.slivers.interface_info import InterfaceType
+    from fim.slivers.network_link import LinkType
+    cls = NAME_RULES[kind][0]
+    x = cls()
+    x.set_name('valid-name')
+    x.set_type({'node': NodeType.VM, 'component': ComponentType.GPU, 'service': ServiceType.L2Bridge,
+                'interface': InterfaceType.TrunkPort, 'link': LinkType.Patch}[kind])
+    x.node_id = 'id-1'
+    if how == 'nested':
+        n = NodeSliver()
+        n.set_name('host-node')
+        n.set_type(NodeType.VM)
+        n.node_id = 'id-0'
+        aci = AttachedComponentsInfo()
+        aci.add_device(x)
+        n.attached_components_info = aci
+        text = JSONSliver.sliver_to_json(n).replace('valid-name', json.dumps(s)[1:-1])
+        back = JSONSliver.node_sliver_from_json(text)
+        return list(back.attached_components_info.devices.values())[0].get_name()
+    if how == 'json':
+        text = JSONSliver.sliver_to_json(x).replace('valid-name', json.dumps(s)[1:-1])
+        back = JSONSliver.node_sliver_from_json(text) if kind == 'node' else JSONSliver.network_service_sliver_from_json(text)
+        return back.get_name()
+    d = json.loads(json.dumps(G.sliver_to_dict(copy.deepcopy(x))).replace('valid-name', json.dumps(s)[1:-1]))
+    rebuild = {'node': G.build_deep_node_sliver_from_dict, 'component': G.build_deep_component_sliver_from_dict,
+               'service': G.build_deep_ns_sliver_from_dict, 'interface': G.build_deep_interface_sliver_from_dict,
+               'link': G.build_deep_link_sliver_from_dict}[kind]
+    return rebuild(props=d).get_name()
 
 
 def _sl(cls, how, s):
